@@ -4,9 +4,12 @@ Resumable semantics of the mini language: what a Python *generator object* / *co
 made from a `Stmt` does.  A suspended generator is a resumption `Gen`:
 
   done o        the generator finished: `StopIteration(v)` (`o = val v`) or an exception left it
-  await k       suspended at `yield <Deferred>` (for a coroutine: inside `Deferred.__await__`'s
-                `yield self`); `k (val v)` is `gen.send(v)`, `k (exc e)` is `gen.throw(e)`
-                (`Failure.throwExceptionIntoGenerator`)
+  await k       a GENERATOR suspended at `yield <Deferred>`; `k (val v)` is `gen.send(v)`, `k (exc e)` is
+                `gen.throw(e)` (`Failure.throwExceptionIntoGenerator`)
+  awaitC k      a COROUTINE at `await <Deferred>`, i.e. entering `Deferred.__await__` (= `__iter__`): whether
+                it suspends at all depends on the Deferred (see `Driver.runGen`): `__iter__` returns/raises the
+                result at once if the Deferred has one, else it does `yield self` and the coroutine is
+                suspended there like a generator; `k` as for `await`
   yieldv v k    suspended at a `yield` of the plain value `v`; `k x` is `gen.send(x)`
   emit e g      the function body logs `e` and goes on (not a suspension)
   call inner k  suspended at `yield <generator/coroutine object>` or `yield inner()` of a decorated
@@ -24,6 +27,7 @@ namespace Twisted.Inline
 inductive Gen where
   | done (o : Outcome)
   | await (k : Outcome → Gen)
+  | awaitC (k : Outcome → Gen)
   | yieldv (v : Nat) (k : Nat → Gen)
   | emit (e : Entry) (g : Gen)
   | call (inner : Gen) (k : Outcome → Gen)
@@ -45,38 +49,45 @@ def loopG (body : Nat → Kont → Gen) : Nat → Nat → Kont → Gen
       | .normal => loopG body k acc' κ
       | c => κ c acc'
 
-def denote : Stmt → Nat → Kont → Gen
+/-- `coro`: the function is an `async def` (its awaits go through `Deferred.__await__`) -/
+def denote (coro : Bool) : Stmt → Nat → Kont → Gen
   | .skip, acc, κ => κ .normal acc
-  | .await, acc, κ => .await fun o => .emit (.aw o) (deliver o acc κ)
+  | .await, acc, κ =>
+    if coro then .awaitC fun o => .emit (.aw o) (deliver o acc κ)
+    else .await fun o => .emit (.aw o) (deliver o acc κ)
   | .yieldv e, acc, κ => .yieldv (e.eval acc) fun v => .emit (.pv v) (κ .normal v)
   | .set e, acc, κ => κ .normal (e.eval acc)
   | .mark n, acc, κ => .emit (.mk n) (κ .normal acc)
   | .seq a b, acc, κ =>
-    denote a acc fun c acc' =>
+    denote coro a acc fun c acc' =>
       match c with
-      | .normal => denote b acc' κ
+      | .normal => denote coro b acc' κ
       | c => κ c acc'
   | .tryExcept body cf h, acc, κ =>
-    denote body acc fun c acc' =>
+    denote coro body acc fun c acc' =>
       match c with
-      | .raise e => if cf.catches e then denote h e.code κ else κ (.raise e) acc'
+      | .raise e => if cf.catches e then denote coro h e.code κ else κ (.raise e) acc'
       | c => κ c acc'
   | .tryFinally body fin, acc, κ =>
-    denote body acc fun c acc' =>
-      denote fin acc' fun c2 acc'' =>
+    denote coro body acc fun c acc' =>
+      denote coro fin acc' fun c2 acc'' =>
         match c2 with
         | .normal => κ c acc''
         | c2 => κ c2 acc''
-  | .loop k body, acc, κ => loopG (denote body) k acc κ
+  | .loop k body, acc, κ => loopG (denote coro body) k acc κ
   | .ret e, acc, κ => κ (.ret (e.eval acc)) acc
   | .raise n, acc, κ => κ (.raise (.user n)) acc
-  | .ifLt n a b, acc, κ => if acc < n then denote a acc κ else denote b acc κ
-  | .call true p, acc, κ =>
-    .call (denote p 0 fun c acc' => .done (finish c acc')) fun o => .emit (.cr o) (deliver o acc κ)
-  | .call false p, acc, κ =>
-    denote p 0 fun c acc' => .emit (.cr (finish c acc')) (deliver (finish c acc') acc κ)
+  | .raiseB n, acc, κ => κ (.raise (.base n)) acc
+  | .ifLt n a b, acc, κ => if acc < n then denote coro a acc κ else denote coro b acc κ
+  | .call true ic p, acc, κ =>
+    -- the nested function has its own kind `ic`; the caller waits for its Deferred (a coroutine caller through
+    -- `Deferred.__await__` of that Deferred — created by `_cancellableInlineCallbacks`, so always a plain
+    -- `Deferred` failing with a plain `Failure` —, which is why one node serves both kinds of caller)
+    .call (denote ic p 0 fun c acc' => .done (finish c acc')) fun o => .emit (.cr o) (deliver o acc κ)
+  | .call false _ p, acc, κ =>
+    denote coro p 0 fun c acc' => .emit (.cr (finish c acc')) (deliver (finish c acc') acc κ)
 
-/-- the generator object of a function with body `p` -/
-def gen (p : Stmt) : Gen := denote p 0 fun c acc => .done (finish c acc)
+/-- the generator object (`coro = false`) / coroutine object (`coro = true`) of a function with body `p` -/
+def gen (coro : Bool) (p : Stmt) : Gen := denote coro p 0 fun c acc => .done (finish c acc)
 
 end Twisted.Inline
